@@ -144,4 +144,344 @@ theorem cookedRoot_is_fixpoint (f : Forest) (fuel : Nat) (c : CDie)
     (h : cookedParent f (fuel + 1) c = none) : cookedRoot f (fuel + 1) c = c := by
   simp [cookedRoot, h]
 
+/-- `d` is the DIE `r` or below it -/
+inductive Below (r : Die) : Die → Prop
+  | self : Below r r
+  | child {p c : Die} : Below r p → c ∈ p.children → Below r c
+
+mutual
+theorem children_mem (r p c : Die) (hp : p ∈ preorder r) (hc : c ∈ p.children) : c ∈ preorder r := by
+  match r with
+  | .mk o t h a cs =>
+    simp only [preorder, List.mem_cons] at hp ⊢
+    rcases hp with rfl | hp
+    · right
+      simp only [Die.children] at hc
+      exact head_mem_list cs c hc
+    · right; exact children_mem_list cs p c hp hc
+theorem children_mem_list (rs : List Die) (p c : Die) (hp : p ∈ preorderList rs) (hc : c ∈ p.children) :
+    c ∈ preorderList rs := by
+  match rs with
+  | [] => simp [preorderList] at hp
+  | x :: xs =>
+    simp only [preorderList, List.mem_append] at hp ⊢
+    rcases hp with hp | hp
+    · exact Or.inl (children_mem x p c hp hc)
+    · exact Or.inr (children_mem_list xs p c hp hc)
+theorem head_mem_list (rs : List Die) (c : Die) (hc : c ∈ rs) : c ∈ preorderList rs := by
+  match rs with
+  | [] => simp at hc
+  | x :: xs =>
+    simp only [preorderList, List.mem_append]
+    simp only [List.mem_cons] at hc
+    rcases hc with rfl | hc
+    · left
+      match c with
+      | .mk o t h a cs => simp [preorder]
+    · exact Or.inr (head_mem_list xs c hc)
+end
+
+theorem below_mem (r d : Die) (h : Below r d) : d ∈ preorder r := by
+  induction h with
+  | self => match r with | .mk o t h a cs => simp [preorder]
+  | child _ hc ih => exact children_mem r _ _ ih hc
+
+mutual
+theorem mem_below (r d : Die) (h : d ∈ preorder r) : Below r d := by
+  match r with
+  | .mk o t hh a cs =>
+    simp only [preorder, List.mem_cons] at h
+    rcases h with rfl | h
+    · exact Below.self
+    · exact mem_below_list (.mk o t hh a cs) cs d (fun c hc => Below.child Below.self (by simpa [Die.children] using hc)) h
+theorem mem_below_list (r : Die) (rs : List Die) (d : Die) (hr : ∀ c ∈ rs, Below r c) (h : d ∈ preorderList rs) : Below r d := by
+  match rs with
+  | [] => simp [preorderList] at h
+  | x :: xs =>
+    simp only [preorderList, List.mem_append] at h
+    rcases h with h | h
+    · have hx : Below r x := hr x (by simp)
+      exact below_trans r x d hx (mem_below x d h)
+    · exact mem_below_list r xs d (fun c hc => hr c (by simp [hc])) h
+theorem below_trans (r x d : Die) (h1 : Below r x) (h2 : Below x d) : Below r d := by
+  induction h2 with
+  | self => exact h1
+  | child _ hc ih => exact Below.child ih hc
+end
+
+/-- following `parent` from an offset leads to the unit's root -/
+inductive Climbs (u : DUnit) : Nat → Prop
+  | root : Climbs u u.root.off
+  | step {o p : Nat} : findParent u o = some (some p) → Climbs u p → Climbs u o
+
+/-- **every DIE a unit lists reaches the unit's root by following `parent`, and the root has no
+    parent: `root` is the end of the `parent` chain** (raw view, any tree shape) -/
+theorem parent_chain_ends_at_root (u : DUnit) (hinc : OffsetsIncreasing u.root) (d : Die) (hd : d ∈ preorder u.root) :
+    Climbs u d.off ∧ findParent u u.root.off = some none := by
+  refine ⟨?_, root_has_no_parent u hinc⟩
+  have hb := mem_below u.root d hd
+  induction hb with
+  | self => exact Climbs.root
+  | @child p c hp hc ih =>
+    have hpm := below_mem u.root p hp
+    exact Climbs.step (child_parent u p c hinc hpm hc) (ih hpm)
+
+/-- offsets strictly increase through the whole section (all units): the byte order -/
+def ForestWF (f : Forest) : Prop := ((rawEntries f).map Die.off).Pairwise (· < ·)
+
+theorem find_unique {α : Type} (l : List α) (key : α → Nat) (d : α) (hs : (l.map key).Pairwise (· < ·)) (hm : d ∈ l) :
+    l.find? (fun x => key x == key d) = some d := by
+  induction l with
+  | nil => simp at hm
+  | cons e es ih =>
+    simp only [List.map_cons, List.pairwise_cons] at hs
+    simp only [List.mem_cons] at hm
+    rcases hm with rfl | hm
+    · simp [List.find?]
+    · have : key e < key d := hs.1 _ (List.mem_map.mpr ⟨d, hm, rfl⟩)
+      have hne : (key e == key d) = false := by simp; omega
+      simp only [List.find?, hne]
+      exact ih hs.2 hm
+
+theorem findDie_mem (f : Forest) (hwf : ForestWF f) (d : Die) (hd : d ∈ rawEntries f) : findDie f d.off = some d :=
+  find_unique (rawEntries f) Die.off d hwf hd
+
+theorem unit_entries_sub (f : Forest) (u : DUnit) (hu : u ∈ f) : ∀ d ∈ preorder u.root, d ∈ rawEntries f := by
+  intro d hd
+  simp only [rawEntries, List.mem_flatMap]
+  exact ⟨u, hu, hd⟩
+
+theorem pairwise_sublist_of_flatMap (f : Forest) (u : DUnit) (hu : u ∈ f) :
+    (preorder u.root).Sublist (rawEntries f) := by
+  induction f with
+  | nil => simp at hu
+  | cons x xs ih =>
+    simp only [rawEntries, List.flatMap_cons]
+    simp only [List.mem_cons] at hu
+    rcases hu with rfl | hu
+    · exact List.sublist_append_left _ _
+    · exact List.Sublist.trans (ih hu) (List.sublist_append_right _ _)
+
+theorem unit_increasing (f : Forest) (hwf : ForestWF f) (u : DUnit) (hu : u ∈ f) : OffsetsIncreasing u.root := by
+  unfold OffsetsIncreasing
+  exact List.Pairwise.sublist (List.Sublist.map _ (pairwise_sublist_of_flatMap f u hu)) hwf
+
+/-- the unit whose entries list an offset is found, and it is the only one -/
+theorem unitOf_mem (f : Forest) (hwf : ForestWF f) (u : DUnit) (hu : u ∈ f) (d : Die) (hd : d ∈ preorder u.root) :
+    unitOf f d.off = some u := by
+  unfold unitOf
+  induction f with
+  | nil => simp at hu
+  | cons x xs ih =>
+    have hwf' : ForestWF xs := by
+      unfold ForestWF rawEntries at hwf ⊢
+      simp only [List.flatMap_cons, List.map_append, List.pairwise_append] at hwf
+      exact hwf.2.1
+    simp only [List.mem_cons] at hu
+    by_cases hx : (preorder x.root).any (fun e => e.off == d.off) = true
+    · -- the first unit lists the offset: it must be the unit of d
+      simp only [List.find?, hx]
+      rcases hu with rfl | hu
+      · rfl
+      · exfalso
+        obtain ⟨e, he, heq⟩ := List.any_eq_true.mp hx
+        have heq' : e.off = d.off := by simpa using heq
+        unfold ForestWF rawEntries at hwf
+        simp only [List.flatMap_cons, List.map_append, List.pairwise_append] at hwf
+        have hlt := hwf.2.2 e.off (List.mem_map.mpr ⟨e, he, rfl⟩) d.off
+          (List.mem_map.mpr ⟨d, unit_entries_sub xs u hu d hd, rfl⟩)
+        omega
+    · have hx' : (preorder x.root).any (fun e => e.off == d.off) = false := by simpa using hx
+      simp only [List.find?, hx']
+      rcases hu with rfl | hu
+      · exfalso
+        have : (preorder u.root).any (fun e => e.off == d.off) = true :=
+          List.any_eq_true.mpr ⟨d, hd, by simp⟩
+        rw [this] at hx'; cases hx'
+      · exact ih hwf' hu
+
+/-- `parent` in the raw view, through the caches and look-ups of the model: a child's parent is the
+    DIE it is a child of, the root of a unit has none -/
+theorem rawParent_child (f : Forest) (hwf : ForestWF f) (u : DUnit) (hu : u ∈ f) (p c : Die)
+    (hp : p ∈ preorder u.root) (hc : c ∈ p.children) : rawParent f c = some p := by
+  have hcm : c ∈ preorder u.root := children_mem u.root p c hp hc
+  unfold rawParent
+  rw [unitOf_mem f hwf u hu c hcm]
+  simp only [child_parent u p c (unit_increasing f hwf u hu) hp hc]
+  exact findDie_mem f hwf p (unit_entries_sub f u hu p hp)
+
+theorem rawParent_root (f : Forest) (hwf : ForestWF f) (u : DUnit) (hu : u ∈ f) : rawParent f u.root = none := by
+  have hr : u.root ∈ preorder u.root := by
+    match h : u.root with
+    | .mk o t hh a cs => simp [preorder]
+  unfold rawParent
+  rw [unitOf_mem f hwf u hu u.root hr]
+  simp [root_has_no_parent u (unit_increasing f hwf u hu)]
+
+
+/-- cooked `parent` as a relation (the paths of fetch_parent_die): no fuel -/
+inductive CParent (f : Forest) : CDie → Option CDie → Prop
+  | none {d : Die} {chain : List Nat} : rawParent f d = none → CParent f ⟨d, chain⟩ none
+  | inner {d p : Die} {chain : List Nat} : rawParent f d = some p → isUnitRoot f p = false →
+      CParent f ⟨d, chain⟩ (some ⟨p, chain⟩)
+  | outer {d p : Die} : rawParent f d = some p → isUnitRoot f p = true → CParent f ⟨d, []⟩ (some ⟨p, []⟩)
+  | hop {d p imp : Die} {i : Nat} {rest : List Nat} {r : Option CDie} : rawParent f d = some p → isUnitRoot f p = true →
+      findDie f i = some imp → CParent f ⟨imp, rest⟩ r → CParent f ⟨d, i :: rest⟩ r
+  | lost {d p : Die} {i : Nat} {rest : List Nat} : rawParent f d = some p → isUnitRoot f p = true →
+      findDie f i = none → CParent f ⟨d, i :: rest⟩ none
+
+/-- the function of the model computes the relation, given fuel for the hops -/
+theorem cookedParent_of_rel (f : Forest) (c : CDie) (r : Option CDie) (h : CParent f c r) :
+    ∀ fuel, c.chain.length < fuel → cookedParent f fuel c = r := by
+  induction h with
+  | none hp => intro fuel hf; cases fuel with | zero => omega | succ n => simp [cookedParent, hp]
+  | inner hp hr => intro fuel hf; cases fuel with | zero => omega | succ n => simp [cookedParent, hp, hr]
+  | outer hp hr => intro fuel hf; cases fuel with | zero => omega | succ n => simp [cookedParent, hp, hr]
+  | hop hp hr hi _ ih =>
+    intro fuel hf
+    cases fuel with
+    | zero => omega
+    | succ n =>
+      simp only [cookedParent, hp, hr, ↓reduceIte, hi]
+      exact ih n (by simp at hf ⊢; omega)
+  | lost hp hr hi => intro fuel hf; cases fuel with | zero => omega | succ n => simp [cookedParent, hp, hr, hi]
+
+theorem cparent_det (f : Forest) (c : CDie) (r1 : Option CDie) (h1 : CParent f c r1) :
+    ∀ r2, CParent f c r2 → r1 = r2 := by
+  intro r2 h2
+  have a := cookedParent_of_rel f c r1 h1 (c.chain.length + 1) (by omega)
+  have b := cookedParent_of_rel f c r2 h2 (c.chain.length + 1) (by omega)
+  rw [a] at b; exact b
+
+/-- climbing by `parent` from `c` ends at `e`, which has no parent -/
+inductive CClimb (f : Forest) : CDie → CDie → Prop
+  | stop {c : CDie} : CParent f c none → CClimb f c c
+  | step {c c' e : CDie} : CParent f c (some c') → CClimb f c' e → CClimb f c e
+
+/-- a cooked DIE value as the producers make them: a DIE of a unit of the file; if it was reached
+    through imports, the innermost link is a DIE that has a parent and imports the DIE's unit, and
+    the DIE is not that unit's root (the root of an imported unit is never yielded); `r` is the root
+    of the unit the outermost link sits in -/
+inductive Rooted (f : Forest) : CDie → Die → Prop
+  | top {u : DUnit} {d : Die} : u ∈ f → d ∈ preorder u.root → Rooted f ⟨d, []⟩ u.root
+  | imported {u : DUnit} {d p imp : Die} {rest : List Nat} {r : Die} {x : CDie} : u ∈ f → p ∈ preorder u.root → d ∈ p.children →
+      findDie f imp.off = some imp → CParent f ⟨imp, rest⟩ (some x) → Rooted f ⟨imp, rest⟩ r →
+      Rooted f ⟨d, imp.off :: rest⟩ r
+
+theorem isUnitRoot_iff (f : Forest) (hwf : ForestWF f) (u : DUnit) (hu : u ∈ f) (d : Die) (hd : d ∈ preorder u.root) :
+    isUnitRoot f d = true ↔ d.off = u.root.off := by
+  unfold isUnitRoot
+  rw [unitOf_mem f hwf u hu d hd]
+  simp only [beq_iff_eq]
+  exact ⟨fun h => h.symm, fun h => h.symm⟩
+
+theorem off_eq_root (u : DUnit) (hinc : OffsetsIncreasing u.root) (d : Die) (hd : d ∈ preorder u.root) (h : d.off = u.root.off) :
+    d = u.root := by
+  have hr : u.root ∈ preorder u.root := by
+    match hh : u.root with
+    | .mk o t h a cs => simp [preorder]
+  have := find_unique (preorder u.root) Die.off d hinc hd
+  have h2 := find_unique (preorder u.root) Die.off u.root hinc hr
+  rw [h] at this
+  rw [this] at h2
+  cases h2; rfl
+
+/-- inside one unit: from any DIE, `parent` leads up to the unit's root, carrying the chain along -/
+theorem climb_in_unit (f : Forest) (hwf : ForestWF f) (u : DUnit) (hu : u ∈ f) (chain : List Nat) (e : CDie) :
+    ∀ d, Below u.root d → ∀ (hend : ∀ k, k ∈ u.root.children → CClimb f ⟨k, chain⟩ e), d ≠ u.root → CClimb f ⟨d, chain⟩ e := by
+  intro d hb
+  induction hb with
+  | self => intro _ hne; exact absurd rfl hne
+  | @child p c hp hc ih =>
+    intro hend _
+    by_cases hpr : p = u.root
+    · subst hpr; exact hend c hc
+    · have hpm := below_mem u.root p hp
+      have hrp : rawParent f c = some p := rawParent_child f hwf u hu p c hpm hc
+      have hnr : isUnitRoot f p = false := by
+        cases h : isUnitRoot f p with
+        | false => rfl
+        | true =>
+          have := (isUnitRoot_iff f hwf u hu p hpm).mp h
+          exact absurd (off_eq_root u (unit_increasing f hwf u hu) p hpm this) hpr
+      exact CClimb.step (CParent.inner hrp hnr) (ih hend hpr)
+
+/-- **`root` is the end of the `parent` chain, through any nesting of imports**: climbing from a
+    cooked DIE value ends at the root of the unit its outermost import sits in, with no chain left -/
+theorem cooked_climb_ends_at_root (f : Forest) (hwf : ForestWF f) (c : CDie) (r : Die) (h : Rooted f c r) :
+    CClimb f c ⟨r, []⟩ := by
+  induction h with
+  | @top u d hu hd =>
+    have hrootm : u.root ∈ preorder u.root := by
+      match hh : u.root with
+      | .mk o t h a cs => simp [preorder]
+    have hstop : CClimb f ⟨u.root, []⟩ ⟨u.root, []⟩ := CClimb.stop (CParent.none (rawParent_root f hwf u hu))
+    by_cases hd0 : d = u.root
+    · subst hd0; exact hstop
+    · apply climb_in_unit f hwf u hu [] ⟨u.root, []⟩ d (mem_below u.root d hd) ?_ hd0
+      intro k hk
+      have hrp : rawParent f k = some u.root := rawParent_child f hwf u hu u.root k hrootm hk
+      have hir : isUnitRoot f u.root = true := (isUnitRoot_iff f hwf u hu u.root hrootm).mpr rfl
+      exact CClimb.step (CParent.outer hrp hir) hstop
+  | @imported u d p imp rest r x hu hp hc hfi hpx _ ih =>
+    -- the importing DIE has a parent: its climb starts with a step
+    have hfirst : ∃ y, CParent f ⟨imp, rest⟩ (some y) ∧ CClimb f y ⟨r, []⟩ := by
+      cases ih with
+      | stop hn => exact absurd (cparent_det f _ _ hn _ hpx) (by simp)
+      | step hs hcl => exact ⟨_, hs, hcl⟩
+    obtain ⟨y, hy, hcl⟩ := hfirst
+    have hrootm : u.root ∈ preorder u.root := by
+      match hh : u.root with
+      | .mk o t h a cs => simp [preorder]
+    have hdm : d ∈ preorder u.root := children_mem u.root p d hp hc
+    have hir : isUnitRoot f u.root = true := (isUnitRoot_iff f hwf u hu u.root hrootm).mpr rfl
+    have hdne : d ≠ u.root := by
+      intro he
+      -- a child lies strictly after its parent in the section
+      have hrp : rawParent f d = some p := rawParent_child f hwf u hu p d hp hc
+      rw [he, rawParent_root f hwf u hu] at hrp
+      cases hrp
+    apply climb_in_unit f hwf u hu (imp.off :: rest) ⟨r, []⟩ d (mem_below u.root d hdm) ?_ hdne
+    intro k hk
+    have hrp : rawParent f k = some u.root := rawParent_child f hwf u hu u.root k hrootm hk
+    exact CClimb.step (CParent.hop hrp hir hfi hy) hcl
+
+/-- the model's function `cookedRoot` computes that end, given enough fuel -/
+theorem cookedRoot_of_climb (f : Forest) (c e : CDie) (h : CClimb f c e) :
+    ∃ n, ∀ fuel, n ≤ fuel → cookedRoot f fuel c = e := by
+  induction h with
+  | @stop c hn =>
+    refine ⟨c.chain.length + 1, ?_⟩
+    intro fuel hf
+    cases fuel with
+    | zero => omega
+    | succ k =>
+      simp only [cookedRoot]
+      rw [cookedParent_of_rel f c none hn (k + 1) (by omega)]
+  | @step c c' e hs _ ih =>
+    obtain ⟨n', hn'⟩ := ih
+    refine ⟨max (c.chain.length + 1) (n' + 1), ?_⟩
+    intro fuel hf
+    cases fuel with
+    | zero => omega
+    | succ k =>
+      simp only [cookedRoot]
+      rw [cookedParent_of_rel f c (some c') hs (k + 1) (by omega)]
+      exact hn' k (by omega)
+
+/-- non-vacuity: a compile unit importing a partial unit; the DIE inside the partial unit, reached
+    through the import, is `Rooted` at the compile unit's root, and the forest is well formed -/
+example :
+    let x : Die := .mk 110 0x34 false [] []
+    let pu : DUnit := ⟨100, 4, .mk 105 0x3c true [] [x]⟩
+    let imp : Die := .mk 20 0x3d false [{ name := 0x18, form := 0x10, ref := some 105 }] []
+    let cu : DUnit := ⟨0, 4, .mk 11 0x11 true [] [imp]⟩
+    let f : Forest := [cu, pu]
+    ForestWF f ∧ Rooted f ⟨x, [20]⟩ cu.root ∧ cookedRoot f 10 ⟨x, [20]⟩ = ⟨cu.root, []⟩ := by
+  intro x pu imp cu f
+  refine ⟨by simp [ForestWF, rawEntries, preorder, preorderList, Die.off, f, cu, pu, imp, x], ?_, by rfl⟩
+  exact Rooted.imported (u := pu) (p := pu.root) (imp := imp) (x := ⟨cu.root, []⟩)
+    (by simp [f]) (by simp [pu, preorder]) (by simp [pu, Die.children]) (by rfl)
+    (CParent.outer (by rfl) (by rfl)) (Rooted.top (u := cu) (by simp [f]) (by simp [cu, preorder, preorderList, imp]))
+
 end ZwVerif.C05
